@@ -266,13 +266,18 @@ class TensorflowConnector(BuiltinConnector):
         return self._funm(matrix, partial(self.np.power, x2=power))
 
     def polar(self, matrix, side="right"):
-        P = self._tf.linalg.sqrtm(self.np.conj(matrix) @ matrix.T)
-        Pinv = self._tf.linalg.inv(P)
+        adjoint = self.np.conj(matrix).T
 
         if side == "right":
-            U = matrix @ Pinv
+            # NOTE: `matrix = U @ P`, where `P` is the square root of
+            # `matrix^\dagger @ matrix`.
+            P = self._tf.linalg.sqrtm(adjoint @ matrix)
+            U = matrix @ self._tf.linalg.inv(P)
         elif side == "left":
-            U = Pinv @ matrix
+            # NOTE: `matrix = P @ U`, where `P` is the square root of
+            # `matrix @ matrix^\dagger`.
+            P = self._tf.linalg.sqrtm(matrix @ adjoint)
+            U = self._tf.linalg.inv(P) @ matrix
 
         return U, P
 
